@@ -140,16 +140,4 @@ def check_query_siblings(run, program, rule="F-UNIT/query-siblings"):
             run.holds(rule, c, "-", "both classes convert returned distances alike")
         else:
             run.violation(rule, c, "-", "sibling classes disagree on converting returned distances")
-    # _prepare_xy_for_query: deg->rad exactly when not use_radians
-    f = program.func(f"{NEI}:_prepare_xy_for_query")
-    ok = False
-    for st in iter_stmts(f.node.body):
-        if isinstance(st, ast.If) and isinstance(st.test, ast.UnaryOp) and isinstance(st.test.op, ast.Not) and isinstance(st.test.operand, ast.Name) and st.test.operand.id in f.params():
-            for s in st.body:
-                if isinstance(s, ast.Assign) and any(isinstance(c, ast.Call) and (dotted(c.func) or [""])[-1] in ("deg2rad", "radians") for c in ast.walk(s.value)):
-                    ok = not st.orelse
-    c = "_prepare_xy_for_query:deg2rad-iff-not-radians"
-    if ok:
-        run.holds(rule, c, where(f), "query points converted to radians exactly when the caller did not pass radians")
-    else:
-        run.violation(rule, c, where(f), "query points are not converted deg->rad exactly under 'not use_radians'")
+    # _prepare_xy_for_query (deg->rad exactly when not use_radians, swap exactly under haversine) is decided path-wise by props/c11._query_preparation
